@@ -117,6 +117,11 @@ class FIXSRC(cccc.Stream):
         with self.createRecord() as record:
             for var in self.fc.keys():
                 self.fc[var] = record.rwInt(self.fc[var])
+        if self.fixSrc.size == 0:
+            # reading: size the array from the file control record
+            self.fixSrc = np.zeros(
+                (self.fc["ninti"], self.fc["nintj"], self.fc["nintk"], self.fc["ngroup"])
+            )
 
     def _rw3DRecord(self, g, z):
         """
